@@ -34,6 +34,7 @@ type verdict struct {
 	known   []string
 	incon   []string
 	passed  int
+	skipped string
 	covers  int
 	ignored int
 	// undecided: engine limits hit inside a symbolic-schedule window (reduces the explored bound only)
@@ -342,7 +343,26 @@ func checkMain(args []string) int {
 			exit = 2
 		}
 	}
+	nRan := 0
 	for _, v := range verdicts {
+		if v.skipped == "" {
+			nRan++
+		}
+	}
+	if len(droppedOverlay) > 0 {
+		for f, msg := range droppedOverlay {
+			fmt.Printf("REDUCED: harness file %s does not build against this tree and was left out (%s)\n", filepath.Base(f), msg)
+		}
+		if nRan == 0 {
+			fmt.Printf("INCONCLUSIVE no harness of %s builds against this tree\n", prop)
+			exit = 2
+		}
+	}
+	for _, v := range verdicts {
+		if v.skipped != "" {
+			fmt.Printf("%s %-28s not run: %s\n", prop, v.spec.Name, v.skipped)
+			continue
+		}
 		if *verbose {
 			printResult(v.res, true)
 		} else {
@@ -399,6 +419,12 @@ func flagSet(fs *flag.FlagSet, name string) bool {
 func judge(prop string, s HarnessSpec, r *HarnessResult, known []KnownFinding) *verdict {
 	v := &verdict{spec: s, res: r}
 	if r.Err != "" {
+		if strings.HasPrefix(r.Err, "harness function not found") && len(droppedOverlay) > 0 {
+			// the file defining this harness constructs internals that the tree under test no longer has in
+			// that shape: the harness cannot run here (reduced coverage, not a verdict about the property)
+			v.skipped = r.Err
+			return v
+		}
 		v.incon = append(v.incon, "engine: "+r.Err)
 		return v
 	}
@@ -508,6 +534,12 @@ func writeEvidence(prop, tier string, seed int, vs []*verdict, wall time.Duratio
 	var solveMs, execMs int64
 	var incon []string
 	var undecided []string
+	var notRun []string
+	for _, v := range vs {
+		if v.skipped != "" {
+			notRun = append(notRun, v.spec.Name+": "+v.skipped)
+		}
+	}
 	for _, v := range vs {
 		r := v.res
 		states += r.NBlocks + r.NSteps
@@ -580,6 +612,7 @@ func writeEvidence(prop, tier string, seed int, vs []*verdict, wall time.Duratio
 			"inconclusive":                  incon,
 			"windows_undecided":             undecided,
 			"windows_not_run_budget":        windowsNotRun,
+			"harnesses_not_built":           notRun,
 			"explanation":                   "states = basic-block instances + scheduler steps encoded; transitions = SSA instructions + candidate moves encoded; every obligation is an SMT query (unsat = holds for all values within the stated bounds); reachability witnesses must be sat",
 			"exhaustive":                    false,
 		},
